@@ -166,7 +166,60 @@ def is_xnp_call(call, name=None):
     return None
 
 
+def _block_of(node):
+    p = getattr(node, "_parent", None)
+    if p is None:
+        return None
+    for f in ("body", "orelse", "finalbody"):
+        blk = getattr(p, f, None)
+        if isinstance(blk, list) and any(x is node for x in blk):
+            return blk
+    return None
+
+
+def _stored_names(st):
+    out = set()
+    for n in ast.walk(st):
+        if isinstance(n, ast.Name) and isinstance(n.ctx, (ast.Store, ast.Del)):
+            out.add(n.id)
+        elif isinstance(n, ast.arg):
+            out.add(n.arg)
+    return out
+
+
+def effective_return(r):
+    """`tmp = <expr>; return tmp` is the same exit as `return <expr>`: when the returned name's reaching definition is a plain
+    assignment earlier in the SAME block and nothing in between re-binds the name or a name the expression reads, a Return
+    node carrying <expr> (same position, same parent) stands for it.  Analyses then see one value per exit instead of the
+    flow-insensitive join of every assignment to the temporary."""
+    v = r.value
+    if not isinstance(v, ast.Name):
+        return r
+    cached = getattr(r, "_effective", None)
+    if cached is not None:
+        return cached
+    out = r
+    blk = _block_of(r)
+    if blk is not None:
+        i = next(k for k, x in enumerate(blk) if x is r)
+        touched = set()
+        for st in reversed(blk[:i]):
+            if isinstance(st, ast.Assign) and len(st.targets) == 1 and isinstance(st.targets[0], ast.Name) and st.targets[0].id == v.id:
+                if v.id not in touched and not (names_in(st.value) & touched):
+                    out = ast.Return(value=st.value)
+                    ast.copy_location(out, r)
+                    out._parent = getattr(r, "_parent", None)
+                    out._origin = r
+                break
+            touched |= _stored_names(st)
+            if v.id in touched:
+                break
+    r._effective = out
+    return out
+
+
 def returns(fnode):
-    """Return nodes of the function itself (not nested defs), in source order"""
-    out = [n for n in body_nodes(fnode, into_nested=False) if isinstance(n, ast.Return)]
+    """Return nodes of the function itself (not nested defs), in source order; a returned temporary is replaced by the
+    expression it was just bound to (effective_return)"""
+    out = [effective_return(n) for n in body_nodes(fnode, into_nested=False) if isinstance(n, ast.Return)]
     return sorted(out, key=lambda n: (n.lineno, n.col_offset))
